@@ -38,8 +38,8 @@ type c37Impl struct {
 	exclude   func(a []c37El, min, max int64) []c37El
 	include   func(a []c37El, min, max int64) []c37El
 	merge     func(a, b []c37El) []c37El
-	dedup     func(a []c37El) []c37El                 // tsm1 only
-	contains  func(a []c37El, min, max int64) (bool) // TimestampArray only
+	dedup     func(a []c37El) []c37El              // tsm1 only
+	contains  func(a []c37El, min, max int64) bool // TimestampArray only
 }
 
 // ---- cursors.*Array adapters -----------------------------------------------------------
@@ -116,22 +116,32 @@ func c37Impls() []c37Impl {
 	out = append(out,
 		c37Cursor[float64, *cursors.FloatArray]("cursors.FloatArray", false,
 			func(id int) float64 { return float64(id) + 0.5 }, func(v float64) int { return int(v - 0.5) },
-			func(ts []int64, vs []float64) *cursors.FloatArray { return &cursors.FloatArray{Timestamps: ts, Values: vs} },
+			func(ts []int64, vs []float64) *cursors.FloatArray {
+				return &cursors.FloatArray{Timestamps: ts, Values: vs}
+			},
 			func(p *cursors.FloatArray) ([]int64, []float64) { return p.Timestamps, p.Values }),
 		c37Cursor[int64, *cursors.IntegerArray]("cursors.IntegerArray", false,
 			func(id int) int64 { return -int64(id) }, func(v int64) int { return int(-v) },
-			func(ts []int64, vs []int64) *cursors.IntegerArray { return &cursors.IntegerArray{Timestamps: ts, Values: vs} },
+			func(ts []int64, vs []int64) *cursors.IntegerArray {
+				return &cursors.IntegerArray{Timestamps: ts, Values: vs}
+			},
 			func(p *cursors.IntegerArray) ([]int64, []int64) { return p.Timestamps, p.Values }),
 		c37Cursor[uint64, *cursors.UnsignedArray]("cursors.UnsignedArray", false,
 			func(id int) uint64 { return math.MaxUint64 - uint64(id) }, func(v uint64) int { return int(math.MaxUint64 - v) },
-			func(ts []int64, vs []uint64) *cursors.UnsignedArray { return &cursors.UnsignedArray{Timestamps: ts, Values: vs} },
+			func(ts []int64, vs []uint64) *cursors.UnsignedArray {
+				return &cursors.UnsignedArray{Timestamps: ts, Values: vs}
+			},
 			func(p *cursors.UnsignedArray) ([]int64, []uint64) { return p.Timestamps, p.Values }),
 		c37Cursor[string, *cursors.StringArray]("cursors.StringArray", false,
 			func(id int) string { return fmt.Sprintf("v%d", id) }, func(v string) int { var n int; fmt.Sscanf(v, "v%d", &n); return n },
-			func(ts []int64, vs []string) *cursors.StringArray { return &cursors.StringArray{Timestamps: ts, Values: vs} },
+			func(ts []int64, vs []string) *cursors.StringArray {
+				return &cursors.StringArray{Timestamps: ts, Values: vs}
+			},
 			func(p *cursors.StringArray) ([]int64, []string) { return p.Timestamps, p.Values }),
 		c37Cursor[bool, *cursors.BooleanArray]("cursors.BooleanArray", true, c37BoolOf, c37BoolID,
-			func(ts []int64, vs []bool) *cursors.BooleanArray { return &cursors.BooleanArray{Timestamps: ts, Values: vs} },
+			func(ts []int64, vs []bool) *cursors.BooleanArray {
+				return &cursors.BooleanArray{Timestamps: ts, Values: vs}
+			},
 			func(p *cursors.BooleanArray) ([]int64, []bool) { return p.Timestamps, p.Values }),
 	)
 	// tsm1.Values (interface elements); element type chosen per position to mix concrete types
